@@ -136,6 +136,11 @@ func (env *Env) BuildArg(e sx.Sexp, tags *[]string) (Arg, string, error) {
 	if err != nil {
 		return a, "unbuildable", err
 	}
+	if !TyEq(back, a.Ty) && ContainsK(term, "enumraw") {
+		// (enumraw ..) says which type NewEnumType must make of the values as given: anything else is the constructor's fault
+		*tags = append(*tags, "ctor:enum-values")
+		return a, "ctor-wrong", fmt.Errorf("NewEnumType made %s of %s", back, term)
+	}
 	if !TyEq(back, a.Ty) {
 		*tags = append(*tags, "noncanon:"+diffHead(a.Ty, back))
 		return a, "unbuildable", fmt.Errorf("term is not in constructor-normal form: built %s", back)
@@ -314,6 +319,23 @@ func Exec(c px.Context, op string, args []sx.Sexp) *Run {
 	}
 	o := observe(op, cts, r.LV)
 	r.Out, r.B, r.Text, r.Live = o.out, o.bools, o.text, o.res
+	// the answer must not depend on hidden state of the VALUE: fill every lazy cache of the live values (inferred type, detailed type,
+	// hash key, text) and ask the same question again of the same objects
+	if o.fault == nil && len(r.LV) > 0 && (op == "inst" || op == "sound" || op == "infer" || op == "assert") {
+		for _, v := range r.LV {
+			v := v
+			Safely(func() { _ = v.PType() })
+			Safely(func() { _ = px.DetailedValueType(v) })
+			Safely(func() { _ = px.ToKey(v) })
+			Safely(func() { _ = v.String() })
+		}
+		if o2 := observe(op, cts, r.LV); o2.out != o.out {
+			r.Status = "cache"
+			r.Detail = "fresh value: " + o.out + "; after PType() / DetailedValueType / ToKey / String() of the same value: " + o2.out
+			r.Tags = append(r.Tags, "ans:"+strings.Replace(r.Out, " ", "", -1))
+			return r
+		}
+	}
 	if o.fault != nil {
 		r.Status, r.Detail = "fault", fmt.Sprint(o.fault)
 		if r.Out == "" {
@@ -368,6 +390,10 @@ func (r *Run) Generic() (core.Result, bool) {
 		return core.Result{Out: "unbuildable", Pred: "n/a", Tags: r.Tags}, true
 	case "differ":
 		return core.Result{Out: r.Out, Pred: "FAIL ctor-parse-differ " + r.Detail, NonTrivial: true, Tags: r.Tags}, true
+	case "cache":
+		return core.Result{Out: r.Out, Pred: "FAIL inst-depends-on-cache " + r.Detail, NonTrivial: true, Tags: r.Tags}, true
+	case "ctor-wrong":
+		return core.Result{Out: "unbuildable", Pred: "FAIL ctor-enum-values " + r.Detail, NonTrivial: true, Tags: r.Tags}, true
 	case "unmodelled":
 		return core.Result{Out: "unmodelled", Pred: "FAIL enc-unmodelled " + r.Detail, NonTrivial: true, Tags: r.Tags}, true
 	}
